@@ -217,7 +217,8 @@ def cases(M):
             continue
         za = r.choice(names)
         ua = gen.random_instant(r) if j % 3 else gen.modern_instant(r)
-        span = r.choice((r.randrange(0, 90 * DAY_US), r.randrange(0, 5000 * DAY_US), r.randrange(0, 3 * 10**6 * DAY_US), r.randrange(0, 86400 * US)))
+        span = r.choice((r.randrange(0, 90 * DAY_US), r.randrange(0, 5000 * DAY_US), r.randrange(0, 3 * 10**6 * DAY_US), r.randrange(0, 86400 * US),
+                         r.randrange(1, 1000), r.randrange(1, US), r.randrange(1, 120 * US)))      # incl. endpoints inside one second / one minute
         ub = ua + span
         if not gen.ok_instant(ub):
             continue
